@@ -308,3 +308,43 @@ package asn1
 //@ ensures [the-parsed-time-is-returned-unchanged] err == nil ==> ret == p1.res0
 //@ at p1 assert [der-layout-with-seconds-and-zone] p1.layout == "20060102150405Z0700"
 //@ at fm assert [serialises-the-parsed-time-in-the-same-layout] fm.layout == "20060102150405Z0700" && fm.t == p1.res0
+
+// Identifier and length octets on the encoding side (X.690 8.1.2, 8.1.3; DER 10.1): the mirror image
+// of parseTagAndLength — class in the two top bits, the constructed bit, low tag numbers inline and
+// high ones after the 0x1f escape in base 128; the short length form below 128 and the long form
+// (0x80 | number of length octets, then the octets) from 128 on.
+//@ func appendTagAndLength
+//@ props C10
+//@ modifies nothing
+//@ frame-trusted appends to the buffer it is given
+//@ site appendBase128Int#1 as hi
+//@ site lengthLength#1 as ll
+//@ site appendLength#1 as al
+//@ requires 0 <= t.class && t.class <= 3 && 0 <= t.tag && 0 <= t.length
+//@ ensures [a-low-tag-with-a-short-length-is-two-octets] t.tag < 31 && t.length < 128 ==> !hi.called && !al.called && len(result) == len(dst) + 2
+//@ ensures [a-low-tag-is-written-inline-with-class-and-constructed-bit] t.tag < 31 && t.length < 128 ==> result[len(dst)] == (uint8(t.class) << 6 | (t.isCompound ? uint8(32) : uint8(0)) | uint8(t.tag))
+//@ ensures [the-short-length-form-is-the-length-itself-in-the-last-octet] t.length < 128 ==> len(result) >= 1 && result[len(result) - 1] == uint8(t.length)
+//@ ensures [high-tag-numbers-go-through-the-escape] (t.tag >= 31 <==> hi.called) && (hi.called ==> hi.n == int64(t.tag))
+//@ ensures [the-long-form-is-used-exactly-from-128-on] (t.length >= 128 <==> al.called) && (al.called ==> al.i == t.length && ll.called && ll.i == t.length)
+//@ at hi assert [escape-octet-carries-class-and-constructed-bit] len(hi.dst) == len(dst) + 1 && hi.dst[len(dst)] == (uint8(t.class) << 6 | (t.isCompound ? uint8(32) : uint8(0)) | 31)
+//@ at al assert [long-form-starts-with-0x80-plus-the-number-of-length-octets] len(al.dst) >= 1 && al.dst[len(al.dst) - 1] == (uint8(128) | uint8(ll.res))
+
+//@ func makePrintableString
+//@ props C10
+//@ pure
+//@ site isPrintable#1 as ip
+//@ loop 1 invariant 0 <= i
+//@ ensures [refused-exactly-after-a-character-outside-the-alphabet] err != nil <==> (ip.called && !ip.res)
+//@ ensures [otherwise-the-text-itself-is-encoded] err == nil ==> e != nil
+//@ at ip assert [each-character-in-turn-asterisk-allowed-ampersand-refused-when-encoding] ip.b == s[i] && ip.asterisk == allowAsterisk && ip.ampersand == rejectAmpersand
+
+//@ func makeIA5String
+//@ props C10
+//@ pure
+//@ loop 1 invariant 0 <= i && (forall j int :: 0 <= j && j < i ==> s[j] <= 127)
+//@ ensures [accepted-exactly-when-every-octet-is-seven-bit] err == nil <==> (forall j int :: 0 <= j && j < len(s) ==> s[j] <= 127)
+
+//@ func makeObjectIdentifier
+//@ props C10
+//@ pure
+//@ ensures [accepted-exactly-when-the-first-two-arcs-can-be-packed] err == nil <==> (len(oid) >= 2 && oid[0] <= 2 && (oid[0] >= 2 || oid[1] < 40))
